@@ -39,7 +39,17 @@ ANCHORS = [("deap/tools/_hypervolume/_hv.c", []), ("deap/tools/_hypervolume/hv.c
            ("deap/tools/_hypervolume/pyhv.py", []), ("deap/tools/indicator.py", ["hypervolume"]),
            ("deap/benchmarks/tools.py", ["hypervolume"])]
 LEVEL = "proof"
-RULE = ("order of the streams: corpus of 6 fixed regression inputs; exhaustive: every multiset of <=3 points over {0..3}^d, "
+RULE = ("order of the streams: corpus of 6 fixed regression inputs; call HISTORIES (quick 22, thorough 300 rounds of 7 plots x 2 back-ends): 3..8 calls "
+        "in ONE process (forked per history from a pristine template, so a history is judged and replayed on its own) to pyhv / the rebuilt extension directly and through "
+        "benchmarks.tools.hypervolume and tools.hypervolume bound to that back-end, which share the reference object (list / int list / tuple / float and int ndarray) and the "
+        "point containers (list of lists / of tuples / of row views, tuple, float and int arrays, row-strided, column-sliced, Fortran-ordered and transposed views) and "
+        "populations; between the calls these objects are kept, overwritten IN PLACE (slice / item / += assignment; fitness.values reassigned, population list grown or cut) "
+        "with a new or an EARLIER value, or replaced by fresh objects of another form carrying an earlier, the same or a new value (old object dropped or kept alive), in one or "
+        "two alternating dimensions (1..5), with malformed calls (non-numeric coordinate, reference too long / None, points None / flat / empty / of another dimension) in "
+        "between whose outcome is not judged; plots: reference overwritten in place then its earlier value in a fresh object, the same for the container, equal values in fresh "
+        "objects, alternating dimensions, malformed-then-valid, wrappers, random walk; EVERY valid call must return the exact measure of what its arguments hold at the time "
+        "of the call (indicator: an index of least exact loss), leave the caller's objects unchanged, and is compared with the model by the ops chv / hv / pop / lootol; "
+        "exhaustive: every multiset of <=3 points over {0..3}^d, "
         "d<=3, with ref=3^d (boundary points) and ref=4^d (quick: the 3-point multisets in d=3 are a seeded 1/20 sample; "
         "thorough: all of them, plus every 4-point multiset for d<=2 and a seeded sample of 150000 4-point multisets in d=3); "
         "wrappers: populations of 2..8 individuals with 1..5 objectives (mostly 2..4), every min/max mixture and dyadic "
@@ -113,6 +123,9 @@ def _cleanup():
     px = _EXT.pop("proxy", None)
     if px is not None:
         px.stop()
+    hs = _EXT.pop("hist", None)
+    if hs is not None:
+        hs.stop()
     d = _EXT.pop("dir", None)
     if d:
         shutil.rmtree(d, ignore_errors=True)
@@ -305,6 +318,119 @@ def hv_c():
     px._start()
     _EXT["proxy"] = px
     return px
+
+
+def _hist_serve(conn, so):
+    """template process of the history stream: forked from the harness before any hypervolume code has run, it loads the
+    rebuilt extension and then only FORKS one child per history; the child interprets the history (run_history) with a
+    pristine module state of pyhv / the extension / the wrappers, answers and exits.  So a history is judged - and
+    replayed, and shrunk - on its own, never on what earlier cases left behind in a long-lived process."""
+    import signal
+    signal.signal(signal.SIGALRM, signal.SIG_DFL)       # (the harness' per-case watchdog handler is inherited by fork)
+    try:
+        mod = _load_ext(so)
+        if os.path.realpath(mod.__file__) != os.path.realpath(so):
+            raise ImportError("extension loaded from %s" % mod.__file__)
+        conn.send((True, "ready"))
+    except BaseException as e:  # noqa
+        conn.send((False, repr(e)))
+        return
+    while True:
+        try:
+            req = conn.recv()
+        except EOFError:
+            return
+        if req is None:
+            return
+        impl, steps = req
+        pid = os.fork()
+        if pid == 0:
+            code = 0
+            try:
+                signal.alarm(_HistServer.CHILD_LIMIT)           # a hang kills the child (SIGALRM), reported below
+                try:
+                    out = (True, run_history(steps, mod if impl == "c" else pyhv))
+                except Exception as e:  # noqa
+                    out = (False, "%s: %s" % (type(e).__name__, e))
+                signal.alarm(0)
+                conn.send(out)
+            except BaseException:  # noqa
+                code = 3
+            finally:
+                os._exit(code)
+        _, status = os.waitpid(pid, 0)
+        if status != 0:
+            if os.WIFSIGNALED(status) and os.WTERMSIG(status) == signal.SIGALRM:
+                conn.send((None, "did not return within %d s" % _HistServer.CHILD_LIMIT))
+            else:
+                conn.send((None, "terminated its process (%s)" % (
+                    "signal %d" % os.WTERMSIG(status) if os.WIFSIGNALED(status) else "exit code %d" % os.WEXITSTATUS(status))))
+
+
+class _HistServer(object):
+    CHILD_LIMIT = 12           # two attempts (with / without the malformed calls) fit lib's 30 s per-case watchdog
+    TIMEOUT = 60
+
+    def __init__(self, so):
+        self.so, self.proc, self.conn = so, None, None
+
+    def _start(self):
+        import multiprocessing
+        ctx = multiprocessing.get_context("fork")
+        self.conn, child = ctx.Pipe()
+        self.proc = ctx.Process(target=_hist_serve, args=(child, self.so), daemon=True)
+        self.proc.start()
+        child.close()
+        if not self.conn.poll(self.TIMEOUT):
+            self.stop()
+            raise lib.Infra("history process did not start")
+        ok, msg = self.conn.recv()
+        if not ok:
+            self.stop()
+            raise lib.Infra("history process cannot load the rebuilt hypervolume extension: %s" % msg)
+
+    def stop(self):
+        if self.proc is not None:
+            try:
+                self.conn.close()
+            except OSError:
+                pass
+            self.proc.terminate()
+            self.proc.join(5)
+        self.proc = self.conn = None
+
+    def run(self, impl, steps):
+        """-> (records, None) | (None, why the child died / hung); an exception of the interpreter itself is raised"""
+        if self.proc is None or not self.proc.is_alive():
+            raise lib.Infra("history process is gone")
+        try:
+            self.conn.send((impl, steps))
+            if not self.conn.poll(self.TIMEOUT):
+                raise lib.Infra("history process does not answer")
+            ok, val = self.conn.recv()
+        except (EOFError, OSError):
+            self.stop()
+            raise lib.Infra("history process is gone")
+        except BaseException:          # e.g. the per-case watchdog of lib.safe_evaluate: the pipe is out of step now
+            self.stop()
+            raise
+        if ok is None:
+            return None, val
+        if not ok:
+            raise RuntimeError("history interpreter: %s" % val)
+        return val, None
+
+
+def hist_server():
+    """started on the FIRST evaluate() of the process (see evaluate), i.e. before the harness has run any DEAP code"""
+    if "hist" in _EXT and (_EXT["hist"].proc is None or not _EXT["hist"].proc.is_alive()):
+        _EXT.pop("hist").stop()              # lost after a hang / watchdog: start a new one
+    if "hist" not in _EXT:
+        px = hv_c()
+        hs = _HistServer(px.so)
+        hs._start()
+        _EXT["hist"] = hs
+    return _EXT["hist"]
 
 
 def backend(name):
@@ -577,6 +703,7 @@ class BadCase(Exception):
 
 def evaluate(d):
     k = d["k"]
+    hist_server()        # forks the (pristine) template process of the history stream before anything else runs
     try:
         if k in ("hv", "perm"):
             return eval_hv(d)
@@ -586,6 +713,8 @@ def evaluate(d):
             return eval_ind(d)
         if k == "conv":
             return eval_conv(d)
+        if k == "hist":
+            return eval_hist(d)
         if k in ("fhv", "find"):
             return eval_float(d)
     except BadCase as e:
@@ -903,6 +1032,452 @@ def eval_conv(d):
     zero = all(x == 0 for x in ref)
     tag = "conv/%s/%s/%s%s" % (target, d.get("impl", "-"), form, "/zero-ref" if zero else "")
     return Case(d, lines, expect, orc, tag=tag, nontrivial=len(pts) >= 2)
+
+
+# ----------------------------------------------------------------------------------------------
+# call HISTORIES: 3..8 calls in ONE process that share, and update in place, the reference object and the containers
+# ----------------------------------------------------------------------------------------------
+# The statement is a for-all over inputs: EVERY call returns the measure of the contents its arguments have at the
+# time of the call, whatever was computed before in the same process (module-level state of pyhv / the extension /
+# the wrappers, objects of an earlier call kept alive, identities reused).  A history is a list of steps
+#   {"op": "ref", "slot": s, "how": "new", "form": F, "val": [...]}       bind slot s to a fresh reference object
+#   {"op": "ref", "slot": s, "how": "inplace", "val": [...], "via": V}    overwrite the SAME object (R[:] = / R[j] = / R +=)
+#   {"op": "pts", "slot": s, "how": "new" | "inplace", ...}               likewise for a point container
+#   {"op": "pop", "slot": s, "how": "new", "w": [...], "vals": [[...]]}   a population; "inplace": fitness.values are reassigned
+#   {"op": "call", "fn": "hv", "P": s, "R": s} / {"op": "call", "fn": "pop" | "ind", "Q": s, "R": s | None}
+#   {"op": "bad", "kind": K, ...}                                         a malformed call; its outcome is NOT judged
+# interpreted by run_history in a process forked for this one history from a pristine template (see _hist_serve).
+
+HIST_RFORMS = ["list", "intlist", "tuple", "ndarray", "intarray"]
+HIST_RMUT = ("list", "intlist", "ndarray", "intarray")
+HIST_PFORMS = ["lol", "intlol", "lot", "tuple", "ndarray", "intarray", "strided", "colslice", "fortran", "transposed", "loa"]
+HIST_PARRAY = ("ndarray", "intarray", "strided", "colslice", "fortran", "transposed")
+HIST_PMUT = tuple(f for f in HIST_PFORMS if f != "tuple")
+HIST_INT = ("intlist", "intarray", "intlol")
+BAD_KINDS = ["str-coord", "ref-long", "ref-none", "pts-none", "flat-pts", "empty-pts", "dim-mismatch", "pop-ref-long"]
+HIST_PLOTS = ["ref-revisit", "pts-revisit", "fresh-equal", "alt-dims", "bad-then-valid", "wrappers", "walk"]
+
+
+def _hf(x):
+    return float(Fr(x))
+
+
+def _hnum(x, integral):
+    q = Fr(x)
+    return int(q) if integral else float(q)
+
+
+def hist_make_ref(form, val):
+    if form == "list":
+        return [_hf(x) for x in val]
+    if form == "intlist":
+        return [int(Fr(x)) for x in val]
+    if form == "tuple":
+        return tuple(_hf(x) for x in val)
+    if form == "ndarray":
+        return numpy.array([_hf(x) for x in val], dtype=float)
+    if form == "intarray":
+        return numpy.array([int(Fr(x)) for x in val], dtype=numpy.int64)
+    raise ValueError(form)
+
+
+def hist_make_pts(form, val):
+    a = [[_hf(x) for x in p] for p in val]
+    n, dd = len(a), len(a[0])
+    if form == "lol":
+        return [list(p) for p in a]
+    if form == "intlol":
+        return [[int(x) for x in p] for p in a]
+    if form == "lot":
+        return [tuple(p) for p in a]
+    if form == "tuple":
+        return tuple(tuple(p) for p in a)
+    arr = numpy.array(a, dtype=float)
+    if form == "ndarray":
+        return arr
+    if form == "intarray":
+        return arr.astype(numpy.int64)
+    if form == "strided":
+        base = numpy.full((2 * n, dd), -77.0)
+        base[::2] = arr
+        return base[::2]
+    if form == "colslice":
+        base = numpy.full((n, 2 * dd), -77.0)
+        base[:, ::2] = arr
+        return base[:, ::2]
+    if form == "fortran":
+        return numpy.asfortranarray(arr)
+    if form == "transposed":
+        return numpy.ascontiguousarray(arr.T).T
+    if form == "loa":
+        return list(arr)                      # a list of row VIEWS of one array
+    raise ValueError(form)
+
+
+def hist_write_ref(R, form, val, via):
+    """overwrite the caller's reference object in place"""
+    new = [_hnum(x, form in HIST_INT) for x in val]
+    if via == "iadd" and isinstance(R, numpy.ndarray):
+        R += numpy.array(new, dtype=R.dtype) - R
+    elif via == "items":
+        for j, x in enumerate(new):
+            R[j] = x
+    else:
+        R[:] = new
+
+
+def hist_write_pts(P, form, val, via):
+    """overwrite the caller's point container in place (arrays keep their shape, lists may change their length)"""
+    new = [[_hnum(x, form in HIST_INT) for x in p] for p in val]
+    if isinstance(P, numpy.ndarray):
+        if via == "items":
+            for i, row in enumerate(new):
+                for j, x in enumerate(row):
+                    P[i, j] = x
+        elif via == "iadd":
+            P += numpy.array(new, dtype=P.dtype) - P
+        else:
+            P[...] = new
+        return
+    same_shape = len(P) == len(new) and all(len(r) == len(q) for r, q in zip(P, new))
+    if via == "items" and same_shape and form != "lot":
+        for i, row in enumerate(new):
+            for j, x in enumerate(row):
+                P[i][j] = x
+    elif form == "loa":
+        P[:] = [numpy.array(r, dtype=float) for r in new]
+    elif form == "lot":
+        P[:] = [tuple(r) for r in new]
+    else:
+        P[:] = [list(r) for r in new]
+
+
+def hist_write_pop(pop, w, vals):
+    """the population object is kept: fitness values reassigned on the same Fitness objects, list grown / cut in place"""
+    F = fit_class(frs(w), "plain")
+    for ind, v in zip(pop, vals):
+        ind.fitness.values = tuple(_hf(x) for x in v)
+    if len(vals) < len(pop):
+        del pop[len(vals):]
+    for v in vals[len(pop):]:
+        pop.append(Ind(F(tuple(_hf(x) for x in v))))
+
+
+def _hist_call(si, st, env, hvmod, btools, indicator):
+    fn = st["fn"]
+    rec = {"i": si, "fn": fn}
+    R = env["R"][st["R"]][0] if st.get("R") is not None else None
+    rec["ref"] = None if R is None else [float(x) for x in R]          # contents AT CALL TIME
+    r0 = snapshot(R)
+    if fn == "hv":
+        P = env["P"][st["P"]][0]
+        rec["pts"] = [[float(x) for x in row] for row in P]
+        p0 = snapshot(P)
+        try:
+            rec["val"] = float(hvmod.hypervolume(P, R))
+        except Exception as e:  # noqa
+            rec["exc"] = "%s: %s" % (type(e).__name__, e)
+        rec["unchanged"] = same(P, p0) and same(R, r0)
+        return rec
+    pop = env["Q"][st["Q"]][0]
+    rec["vals"] = [[float(x) for x in ind.fitness.values] for ind in pop]
+    wv0 = [tuple(ind.fitness.wvalues) for ind in pop]
+    try:
+        if fn == "pop":
+            rec["val"] = float(btools.hypervolume(pop) if R is None else btools.hypervolume(pop, R))
+        else:
+            v = indicator.hypervolume(pop) if R is None else indicator.hypervolume(pop, ref=R)
+            rec["val"] = int(v)
+            rec["integral"] = bool(v == int(v))
+    except Exception as e:  # noqa
+        rec["exc"] = "%s: %s" % (type(e).__name__, e)
+    rec["unchanged"] = same(R, r0) and [tuple(ind.fitness.wvalues) for ind in pop] == wv0
+    return rec
+
+
+def _hist_bad(si, st, env, hvmod, btools, indicator):
+    """a malformed call (outside the property's domain): whatever it does is recorded, never judged"""
+    kind = st["kind"]
+    R = env["R"][st["R"]][0]
+    rec = {"i": si, "fn": "bad", "kind": kind}
+    try:
+        if kind == "pop-ref-long":
+            out = btools.hypervolume(env["Q"][st["Q"]][0], [float(x) for x in R] + [1.0])
+        else:
+            P = env["P"][st["P"]][0]
+            pl = [[float(x) for x in row] for row in P]
+            if kind == "str-coord":
+                a = [list(r) for r in pl]
+                a[-1][-1] = "x"
+                args = (a, R)
+            elif kind == "ref-long":
+                args = (P, [float(x) for x in R] + [1.0])
+            elif kind == "ref-none":
+                args = (P, None)
+            elif kind == "pts-none":
+                args = (None, R)
+            elif kind == "flat-pts":
+                args = ([float(x) for x in pl[0]], R)
+            elif kind == "empty-pts":
+                args = ([], R)
+            elif kind == "dim-mismatch":
+                args = ([r + [r[-1]] for r in pl], R)
+            else:
+                raise ValueError(kind)
+            out = hvmod.hypervolume(*args)
+        rec["val"] = repr(out)
+    except Exception as e:  # noqa
+        rec["exc"] = "%s: %s" % (type(e).__name__, str(e)[:80])
+    return rec
+
+
+def run_history(steps, hvmod):
+    """Interpret a history with `hvmod` (pyhv or the rebuilt extension module) as the backend of the direct calls and of
+    both wrappers.  Runs in the process that owns the backend; returns one record per call (plain data only)."""
+    btools = importlib.import_module("deap.benchmarks.tools")
+    indicator = importlib.import_module("deap.tools.indicator")
+    env = {"R": {}, "P": {}, "Q": {}}
+    out = []
+    old = (btools.hv, indicator.hv)
+    btools.hv = indicator.hv = hvmod
+    try:
+        with warnings.catch_warnings():
+            warnings.simplefilter("ignore")
+            for si, st in enumerate(steps):
+                op = st["op"]
+                if op == "ref":
+                    if st["how"] == "new":
+                        env["R"][st["slot"]] = [hist_make_ref(st["form"], st["val"]), st["form"]]
+                    else:
+                        obj, form = env["R"][st["slot"]]
+                        hist_write_ref(obj, form, st["val"], st.get("via", "slice"))
+                elif op == "pts":
+                    if st["how"] == "new":
+                        env["P"][st["slot"]] = [hist_make_pts(st["form"], st["val"]), st["form"]]
+                    else:
+                        obj, form = env["P"][st["slot"]]
+                        hist_write_pts(obj, form, st["val"], st.get("via", "all"))
+                elif op == "pop":
+                    if st["how"] == "new":
+                        env["Q"][st["slot"]] = [population(frs(st["w"]), [frs(v) for v in st["vals"]]), st["w"]]
+                    else:
+                        obj, w = env["Q"][st["slot"]]
+                        hist_write_pop(obj, w, st["vals"])
+                elif op == "call":
+                    out.append(_hist_call(si, st, env, hvmod, btools, indicator))
+                elif op == "bad":
+                    out.append(_hist_bad(si, st, env, hvmod, btools, indicator))
+                else:
+                    raise ValueError(op)
+    finally:
+        btools.hv, indicator.hv = old
+    return out
+
+
+def _rect(val, dd=None):
+    if not val or not val[0] or any(len(p) != len(val[0]) for p in val) or (dd is not None and len(val[0]) != dd):
+        raise BadCase("not a rectangular, non-empty point set")
+
+
+def hist_simulate(steps):
+    """validity of a history + the contents every valid call must see (exact rationals), by step index"""
+    R, P, Q, exp, ncalls = {}, {}, {}, {}, 0
+    for si, st in enumerate(steps):
+        op = st.get("op")
+        if op == "ref":
+            val = frs(st["val"])
+            if st["how"] == "new":
+                form = st["form"]
+                if form not in HIST_RFORMS:
+                    raise BadCase("reference form")
+            else:
+                if st["slot"] not in R or R[st["slot"]]["form"] not in HIST_RMUT or len(val) != len(R[st["slot"]]["val"]):
+                    raise BadCase("in-place update of an unbound / immutable reference")
+                form = R[st["slot"]]["form"]
+            if not val or (form in HIST_INT and any(x.denominator != 1 for x in val)):
+                raise BadCase("reference value")
+            R[st["slot"]] = {"form": form, "val": val}
+        elif op == "pts":
+            val = [frs(p) for p in st["val"]]
+            _rect(val)
+            if st["how"] == "new":
+                form = st["form"]
+                if form not in HIST_PFORMS:
+                    raise BadCase("container form")
+            else:
+                if st["slot"] not in P or P[st["slot"]]["form"] not in HIST_PMUT:
+                    raise BadCase("in-place update of an unbound / immutable container")
+                form, oldv = P[st["slot"]]["form"], P[st["slot"]]["val"]
+                if len(val[0]) != len(oldv[0]) or (form in HIST_PARRAY and len(val) != len(oldv)):
+                    raise BadCase("in-place update changes the shape")
+            if form in HIST_INT and any(x.denominator != 1 for p in val for x in p):
+                raise BadCase("integer container")
+            P[st["slot"]] = {"form": form, "val": val}
+        elif op == "pop":
+            vals = [frs(v) for v in st["vals"]]
+            if st["how"] == "new":
+                w = frs(st["w"])
+                if not w or any(x == 0 for x in w):
+                    raise BadCase("weights")
+            else:
+                if st["slot"] not in Q:
+                    raise BadCase("unbound population")
+                w = Q[st["slot"]]["w"]
+            _rect(vals, len(w))
+            Q[st["slot"]] = {"w": w, "vals": vals}
+        elif op == "call":
+            fn = st.get("fn")
+            r = None
+            if st.get("R") is not None:
+                if st["R"] not in R:
+                    raise BadCase("unbound reference")
+                r = R[st["R"]]["val"]
+            if fn == "hv":
+                if r is None or st.get("P") not in P:
+                    raise BadCase("unbound argument")
+                pts, rr, e = P[st["P"]]["val"], r, {"pts": P[st["P"]]["val"], "ref": r}
+            elif fn in ("pop", "ind"):
+                if st.get("Q") not in Q:
+                    raise BadCase("unbound population")
+                q = Q[st["Q"]]
+                pts = wobj_exact(q["w"], q["vals"])
+                rr = r if r is not None else [max(p[j] for p in pts) + 1 for j in range(len(q["w"]))]
+                if fn == "ind" and len(pts) < 2:
+                    raise BadCase("indicator needs two individuals")
+                e = {"w": q["w"], "vals": q["vals"], "ref": r}
+            else:
+                raise BadCase("call")
+            if any(len(p) != len(rr) for p in pts) or any(x > y for p in pts for x, y in zip(p, rr)) or not exactness_ok(pts, rr):
+                raise BadCase("call outside the domain / the exact regime")
+            exp[si] = e
+            ncalls += 1
+        elif op == "bad":
+            if st.get("kind") not in BAD_KINDS or st.get("R") not in R:
+                raise BadCase("malformed-call step")
+            if st["kind"] == "pop-ref-long":
+                if st.get("Q") not in Q:
+                    raise BadCase("malformed-call step")
+            elif st.get("P") not in P:
+                raise BadCase("malformed-call step")
+        else:
+            raise BadCase("unknown step")
+    if ncalls == 0:
+        raise BadCase("history without a call")
+    return exp
+
+
+def hist_text(steps, recs=()):
+    """the history as one line of Python-like text; results of the calls made so far are appended"""
+    res = dict((r["i"], r) for r in recs)
+    out = []
+    for si, st in enumerate(steps):
+        op = st["op"]
+        if op == "ref":
+            out.append("R%s = %s(%s)" % (st["slot"], st["form"], slist(frs(st["val"]))) if st["how"] == "new"
+                       else "R%s <-in place (%s)- (%s)" % (st["slot"], st.get("via", "slice"), slist(frs(st["val"]))))
+        elif op == "pts":
+            out.append("P%s = %s(%s)" % (st["slot"], st["form"], spts(frs(p) for p in st["val"])) if st["how"] == "new"
+                       else "P%s <-in place (%s)- (%s)" % (st["slot"], st.get("via", "all"), spts(frs(p) for p in st["val"])))
+        elif op == "pop":
+            out.append("Q%s = population(weights %s, values %s)" % (st["slot"], slist(frs(st["w"])), spts(frs(p) for p in st["vals"]))
+                       if st["how"] == "new" else "Q%s: fitness.values <-in place- (%s)" % (st["slot"], spts(frs(p) for p in st["vals"])))
+        else:
+            if op == "bad":
+                t = "malformed call %s(%s, R%s)" % (st["kind"], "Q%s" % st.get("Q") if st["kind"] == "pop-ref-long" else "P%s" % st.get("P"), st["R"])
+            elif st["fn"] == "hv":
+                t = "hypervolume(P%s, R%s)" % (st["P"], st["R"])
+            elif st["fn"] == "pop":
+                t = "benchmarks.tools.hypervolume(Q%s%s)" % (st["Q"], "" if st.get("R") is None else ", R%s" % st["R"])
+            else:
+                t = "tools.hypervolume(Q%s%s)" % (st["Q"], "" if st.get("R") is None else ", ref=R%s" % st["R"])
+            r = res.get(si)
+            if r is not None:
+                t += " -> " + ("raised " + r["exc"] if "exc" in r else str(r.get("val")))
+            out.append(t)
+    return "; ".join(out)
+
+
+def eval_hist(d):
+    """Clause: every call of a history returns the measure of what its arguments hold at the time of the call (the
+    indicator: an index of least loss), and leaves the caller's objects alone; malformed calls in between are not judged."""
+    steps, name, plot = d["steps"], d["impl"], d.get("plot", "-")
+    if name not in ("py", "c"):
+        raise BadCase("backend")
+    sim = hist_simulate(steps)
+    who = "pyhv-only" if name == "py" else "hv.c"
+    tag = "hist/%s/%s" % (name, plot)
+    recs, why = hist_server().run(name, steps)
+    if recs is None:
+        valid = [st for st in steps if st["op"] != "bad"]
+        recs2, why2 = hist_server().run(name, valid) if len(valid) < len(steps) else (None, why)
+        if recs2 is None:
+            return Case(d, [], [], "%s: %s %s during the call history: %s" % (
+                who, "the compiled extension" if name == "c" else "pyhv", why2, hist_text(valid)), tag=tag + "/crash")
+        # only the malformed calls (outside the property's domain) bring the process down: the valid calls are judged alone
+        steps, recs, sim, tag = valid, recs2, hist_simulate(valid), tag + "/crash-on-malformed-call"
+    lines, expect, orc, good, bad_before = [], [], None, 0, False
+    done = []
+    for rec in recs:
+        done.append(rec)
+        if rec["fn"] == "bad":
+            bad_before = True
+            continue
+        si, fn = rec["i"], rec["fn"]
+        ex = sim[si]
+        ref = None if rec["ref"] is None else [Fr(x) for x in rec["ref"]]
+        if fn == "hv":
+            pts = [[Fr(x) for x in p] for p in rec["pts"]]
+            seen_ok = pts == ex["pts"] and ref == ex["ref"]
+            r, what = ref, "hypervolume of %s w.r.t. %s" % (spts(pts), slist(ref))
+        else:
+            vals = [[Fr(x) for x in v] for v in rec["vals"]]
+            seen_ok = vals == ex["vals"] and ref == ex["ref"]
+            w = ex["w"]
+            pts = wobj_exact(w, vals)
+            r = ref if ref is not None else [max(p[j] for p in pts) + 1 for j in range(len(w))]
+            what = "population (weights %s, values %s, ref %s)" % (slist(w), spts(vals), "default" if ref is None else slist(ref))
+        if not seen_ok:
+            if not bad_before:
+                raise AssertionError("history interpreter: call %d sees %r, the description says %r" % (si, rec, ex))
+            if any(len(p) != len(r) for p in pts) or any(x > y for p in pts for x, y in zip(p, r)):
+                break               # a malformed call left the caller's objects outside the domain: nothing to judge
+        total = measure(pts, r)
+        here = None
+        if "exc" in rec:
+            here = "step %d raised %s; the %s is %s" % (si, rec["exc"], what, sfr(total))
+        elif fn in ("hv", "pop"):
+            got = exact_of_float(rec["val"])
+            if got != total:
+                here = "step %d: the %s is %s (contents of the arguments at the time of the call), got %s" % (
+                    si, what, sfr(total), "non-finite" if got is None else sfr(got))
+            if fn == "hv" and name == "c":
+                lines.append("C15 chv %s %s" % (slist(r), spts(pts)))
+                expect.append("ok %s" % ("non-finite" if got is None else sfr(got)))
+            elif fn == "hv" and here is None:
+                lines.append("C15 hv %s %s" % (slist(r), spts(pts)))
+                expect.append(sfr(got))
+            elif fn == "pop" and not (name == "py" and here is not None):
+                lines.append("C15 pop %s %s %s" % (slist(w), spts(vals), "none" if ref is None else slist(ref)))
+                expect.append("%s %s" % ("non-finite" if got is None else sfr(got), slist(r)))
+        else:
+            idx, n = rec["val"], len(pts)
+            loss = [total - measure(pts[:i] + pts[i + 1:], r) for i in range(n)]
+            if not rec.get("integral") or not (0 <= idx < n):
+                here = "step %d: the indicator returned %r, not an index into the %s" % (si, idx, what)
+            elif loss[idx] != min(loss):
+                here = "step %d: the indicator returned index %d whose removal loses %s, removing index %d loses only %s; %s" % (
+                    si, idx, sfr(loss[idx]), loss.index(min(loss)), sfr(min(loss)), what)
+            if here is None or name != "py":
+                lines.append("C15 lootol %s %s %d 0" % (slist(r), spts(pts), idx if isinstance(idx, int) and idx >= 0 else 0))
+                expect.append("within")
+        if here is None and not rec["unchanged"]:
+            here = "step %d modified the caller's objects (%s)" % (si, what)
+        if here is not None:
+            orc = "%s: call history in one process: %s  ==>  %s" % (who, hist_text(steps[:si + 1], done), here)
+            break
+        if len(pts) >= 2 and total > 0:
+            good += 1
+    return Case(d, lines, expect, orc, tag=tag, nontrivial=good >= 2)
 
 
 # ----------------------------------------------------------------------------------------------
@@ -1275,11 +1850,227 @@ def float_front(rng):
     return mode, [repr(x) for x in ref], [[repr(x) for x in p] for p in pts]
 
 
+_HIST_W = {
+    # action weights (keep, inplace-new, inplace-old, fresh-old, fresh-same, fresh-new)
+    "default": (3, 2, 2, 2, 1, 1),
+    "fresh-equal": (1, 1, 1, 1, 7, 1),
+}
+_HIST_ACTS = ("keep", "inplace-new", "inplace-old", "fresh-old", "fresh-same", "fresh-new")
+
+
+def history_case(rng, impl, plot):
+    """One call history (3..8 valid calls).  Per dimension there are two reference slots, two container slots and one
+    population slot; before every call the reference and the container are kept / overwritten in place with a new or an
+    EARLIER value / replaced by a fresh object (same slot: the old object is dropped; other slot: it stays alive)
+    carrying an earlier, the same or a new value.  All coordinates lie in [off, K+off], all references in
+    [K+off, K+off+3], so every container of a dimension is in the domain of every reference of that dimension."""
+    dims = [rng.choice([1, 2, 2, 3, 3, 4, 5])]
+    if plot == "alt-dims" or rng.random() < 0.25:
+        dims.append(rng.choice([x for x in (1, 2, 3, 4, 5) if x != dims[0]]))
+    K = rng.choice([2, 3, 4, 8])
+    den = rng.choice([1, 1, 1, 2, 4])
+    off = rng.choice([0, 0, 0, -K, -3, 5])
+    intok = den == 1
+    rforms = [f for f in HIST_RFORMS if intok or f not in HIST_INT]
+    pforms = [f for f in HIST_PFORMS if intok or f not in HIST_INT]
+    steps = []
+    S = dict((dim, {"k": k, "R": None, "P": None, "Q": None, "Rs": {}, "Ps": {}, "w": None, "seenR": [], "seenP": [], "seenQ": []})
+             for k, dim in enumerate(dims))
+
+    def new_ref(dim):
+        if rng.random() < 0.5:
+            return [sfr(K + off + rng.randint(0, 3))] * dim
+        return [sfr(K + off + rng.randint(0, 3)) for _ in range(dim)]
+
+    def new_pts(dim, n=None, lo=1):
+        n = n or rng.randint(lo, 5)
+        mode = rng.choice(["rand", "rand", "ties", "dup", "boundary"])
+        hi = min(K, 2) if mode == "ties" else K
+        pts = [[Fr(rng.randint(0, hi * den), den) + off for _ in range(dim)] for _ in range(n)]
+        if mode == "dup" and n > 1:
+            pts[rng.randrange(n)] = list(pts[rng.randrange(n)])
+        if mode == "boundary":
+            pts[rng.randrange(n)][rng.randrange(dim)] = Fr(K + off)
+        return [[sfr(x) for x in p] for p in pts]
+
+    def remember(lst, v):
+        if v not in lst:
+            lst.append(v)
+
+    def pick(plot_):
+        return rng.choices(_HIST_ACTS, weights=_HIST_W.get(plot_, _HIST_W["default"]))[0]
+
+    def ref_action(dim, act, forms=None):
+        s = S[dim]
+        cur = s["R"]
+        if cur is None:
+            act = "fresh-new"
+        elif act.startswith("inplace") and s["Rs"][cur]["form"] not in HIST_RMUT:
+            act = "fresh" + act[len("inplace"):]
+        if act == "keep":
+            return
+        curval = None if cur is None else s["Rs"][cur]["val"]
+        if act.endswith("-old"):
+            cands = [v for v in s["seenR"] if v != curval]
+            val = rng.choice(cands) if cands else new_ref(dim)
+        elif act.endswith("-same"):
+            val = curval
+        else:
+            val = new_ref(dim)
+            for _ in range(5):
+                if val != curval:
+                    break
+                val = new_ref(dim)
+        if act.startswith("inplace"):
+            steps.append({"op": "ref", "slot": cur, "how": "inplace", "val": val, "via": rng.choice(["slice", "items", "iadd"])})
+            s["Rs"][cur]["val"] = val
+        else:
+            slot = 2 * s["k"] if cur is None else (cur if rng.random() < 0.5 else cur ^ 1)
+            form = rng.choice(forms or rforms)
+            steps.append({"op": "ref", "slot": slot, "how": "new", "form": form, "val": val})
+            s["Rs"][slot] = {"form": form, "val": val}
+            s["R"] = slot
+        remember(s["seenR"], val)
+
+    def pts_action(dim, act, forms=None):
+        s = S[dim]
+        cur = s["P"]
+        if cur is None:
+            act = "fresh-new"
+        elif act.startswith("inplace") and s["Ps"][cur]["form"] not in HIST_PMUT:
+            act = "fresh" + act[len("inplace"):]
+        if act == "keep":
+            return
+        curval = None if cur is None else s["Ps"][cur]["val"]
+        fixed_n = None
+        if act.startswith("inplace") and (s["Ps"][cur]["form"] in HIST_PARRAY or rng.random() < 0.5):
+            fixed_n = len(curval)
+        if act.endswith("-old"):
+            cands = [v for v in s["seenP"] if v != curval and (fixed_n is None or len(v) == fixed_n)]
+            val = rng.choice(cands) if cands else new_pts(dim, fixed_n)
+        elif act.endswith("-same"):
+            val = curval
+        else:
+            val = new_pts(dim, fixed_n)
+        if act.startswith("inplace"):
+            steps.append({"op": "pts", "slot": cur, "how": "inplace", "val": val, "via": rng.choice(["all", "items", "iadd"])})
+            s["Ps"][cur]["val"] = val
+        else:
+            slot = 2 * s["k"] if cur is None else (cur if rng.random() < 0.5 else cur ^ 1)
+            form = rng.choice(forms or pforms)
+            steps.append({"op": "pts", "slot": slot, "how": "new", "form": form, "val": val})
+            s["Ps"][slot] = {"form": form, "val": val}
+            s["P"] = slot
+        remember(s["seenP"], val)
+
+    def pop_action(dim, act):
+        s = S[dim]
+        if s["Q"] is None:
+            act = "fresh-new"
+        if act == "keep":
+            return
+        if act.startswith("fresh") or s["w"] is None:
+            s["w"] = [rng.choice(["1", "-1", "-1", "2", "-1/2"]) for _ in range(dim)]
+        if act.endswith("-old") and s["seenQ"]:
+            q = rng.choice(s["seenQ"])
+        elif act.endswith("-same") and s["seenQ"]:
+            q = s["seenQ"][-1]
+        else:
+            q = new_pts(dim, lo=2)
+        remember(s["seenQ"], q)
+        # weighted objective (minimised) = -(value * weight) = q   =>   value = -q / weight
+        vals = [[sfr(-Fr(c) / Fr(wj)) for c, wj in zip(p, s["w"])] for p in q]
+        if act.startswith("fresh"):
+            steps.append({"op": "pop", "slot": s["k"], "how": "new", "w": list(s["w"]), "vals": vals})
+            s["Q"] = s["k"]
+        else:
+            steps.append({"op": "pop", "slot": s["k"], "how": "inplace", "vals": vals})
+
+    def emit_call(dim, fn=None, need_ref=False):
+        s = S[dim]
+        if fn is None:
+            fn = rng.choice(["hv", "pop", "pop", "ind", "ind"] if plot == "wrappers" else ["hv"] * 8 + ["pop", "ind"])
+        if fn == "ind" and not 2 <= dim <= 4:
+            fn = "pop"
+        if s["R"] is None:
+            ref_action(dim, "fresh-new")
+        if fn == "hv":
+            if s["P"] is None:
+                pts_action(dim, "fresh-new")
+            steps.append({"op": "call", "fn": "hv", "P": s["P"], "R": s["R"]})
+        else:
+            if s["Q"] is None:
+                pop_action(dim, "fresh-new")
+            steps.append({"op": "call", "fn": fn, "Q": s["Q"], "R": s["R"] if (need_ref or rng.random() < 0.7) else None})
+        return fn
+
+    def emit_bad(dim):
+        s = S[dim]
+        if s["R"] is None:
+            ref_action(dim, "fresh-new")
+        kind = rng.choice(BAD_KINDS)
+        if kind == "pop-ref-long":
+            if s["Q"] is None:
+                pop_action(dim, "fresh-new")
+            steps.append({"op": "bad", "kind": kind, "Q": s["Q"], "R": s["R"]})
+        else:
+            if s["P"] is None:
+                pts_action(dim, "fresh-new")
+            steps.append({"op": "bad", "kind": kind, "P": s["P"], "R": s["R"]})
+
+    ncalls = rng.randint(3, 8)
+    made = 0
+    first = dims[0]
+    if plot == "ref-revisit":
+        # a mutable reference is used, overwritten in place, and its EARLIER value comes back in a fresh object
+        ref_action(first, "fresh-new", forms=[f for f in rforms if f in HIST_RMUT])
+        emit_call(first, fn=rng.choice(["hv", "hv", "hv", "pop", "ind"]), need_ref=True)
+        ref_action(first, "inplace-new")
+        if rng.random() < 0.6:
+            emit_call(first, need_ref=True)
+            made += 1
+        ref_action(first, "fresh-old")
+        emit_call(first, fn=rng.choice(["hv", "hv", "hv", "pop", "ind"]), need_ref=True)
+        made += 2
+    elif plot == "pts-revisit":
+        pts_action(first, "fresh-new", forms=[f for f in pforms if f in HIST_PMUT])
+        emit_call(first, fn="hv")
+        pts_action(first, "inplace-new")
+        if rng.random() < 0.6:
+            emit_call(first, fn="hv")
+            made += 1
+        pts_action(first, "fresh-old")
+        emit_call(first, fn="hv")
+        made += 2
+    while made < ncalls:
+        dim = dims[made % len(dims)] if plot == "alt-dims" else rng.choice(dims)
+        ref_action(dim, pick(plot))
+        pts_action(dim, pick(plot))
+        if plot == "wrappers" or rng.random() < 0.2:
+            pop_action(dim, pick(plot))
+        if rng.random() < (0.6 if plot == "bad-then-valid" else 0.06):
+            emit_bad(dim)
+        emit_call(dim)
+        made += 1
+    return {"k": "hist", "impl": impl, "plot": plot, "steps": steps}
+
+
+def history_cases(rng, rounds):
+    """every plot with both backends in every round (what is explored does not depend on the seed)"""
+    for _ in range(rounds):
+        for plot in HIST_PLOTS:
+            for impl in ("py", "c"):
+                yield history_case(rng, impl, plot)
+
+
 def generate(tier, rng, mult):
     thorough = tier == "thorough"
     for c in CORPUS:
         yield c
-    # 1. the exhaustive small domain first (the time budget truncates from the end)
+    # 0. call histories in one process (small stream, carries the clause "every call, whatever was computed before")
+    for c in history_cases(rng, (300 if thorough else 22) * mult):
+        yield c
+    # 1. the exhaustive small domain (the time budget truncates from the end)
     for c in exhaustive(tier, rng):
         yield c
     # 2. the wrappers
@@ -1348,6 +2139,16 @@ def generate(tier, rng, mult):
 # ----------------------------------------------------------------------------------------------
 
 def shrink(d):
+    if d["k"] == "hist":
+        steps = d["steps"]
+        for i in range(len(steps) - 1, -1, -1):          # drop a step (invalid histories evaluate to "no failure")
+            yield dict(d, steps=steps[:i] + steps[i + 1:])
+        for i, st in enumerate(steps):                   # plainer containers
+            if st["op"] in ("ref", "pts") and st["how"] == "new":
+                plain = "list" if st["op"] == "ref" else "lol"
+                if st["form"] != plain:
+                    yield dict(d, steps=steps[:i] + [dict(st, form=plain)] + steps[i + 1:])
+        return
     if d["k"] in ("conv", "fhv", "find"):
         pts, ref = d["pts"], d["ref"]
         for i in range(len(pts)):
@@ -1428,7 +2229,7 @@ def classify(desc, msg, known):
     (its `ignore` marks are never consulted below that).  Anything else — in particular any deviation of the compiled
     extension, of pyhv on tie-free input or in d <= 3, or of a pyhv that no longer contains the defective construct —
     is a violation."""
-    if not msg.startswith("pyhv-only") or not f7_construct_present():
+    if not msg.startswith("pyhv-only") or not f7_construct_present() or desc.get("k") == "hist":
         return None
     try:
         if desc["k"] in ("hv", "perm", "conv", "fhv", "find"):
